@@ -7,7 +7,7 @@
    code before the fixes and are refuted below. *)
 From Coq Require Import ZArith List Bool String.
 From SX Require Import Base.Bytes Model.Unquote Model.Duration Gen.ParserTables Model.Parsers.
-From SX Require Import Proofs.ParsersDecimal Proofs.ParsersProofs Proofs.UnquoteProofs.
+From SX Require Import Proofs.ParsersDecimal Proofs.DurationProofs Proofs.ParsersProofs Proofs.UnquoteProofs.
 Import ListNotations.
 Open Scope Z_scope.
 Local Open Scope list_scope.
@@ -151,6 +151,60 @@ Theorem C18_rate_v0_refuted :
   exists s n d, parse_rate_limit_v0 s = Some (n, d) /\ ~ denotes_rate s n d.
 Proof. exact parse_rate_limit_v0_refuted. Qed.
 
+(* round trips: every count below 2^31 alone, per bare unit (all eight unit names), per k units, and per
+   any window of 0 .. 2^63-1 nanoseconds parses back to exactly that count and window *)
+Theorem C18_rate_roundtrip_count : forall n,
+  0 <= n < 2 ^ 31 -> parse_rate_limit (render_dec n) = Some (n, one_second).
+Proof. exact rate_roundtrip_count. Qed.
+
+Theorem C18_rate_roundtrip_unit : forall n u uv,
+  0 <= n < 2 ^ 31 -> In (u, uv) unit_table -> parse_rate_limit (render_dec n ++ 47 :: u) = Some (n, uv).
+Proof. exact rate_roundtrip_unit. Qed.
+
+Theorem C18_rate_roundtrip_window : forall n k u uv,
+  0 <= n < 2 ^ 31 -> In (u, uv) unit_table -> 0 <= k -> k * uv <= two63 - 1 ->
+  parse_rate_limit (render_dec n ++ 47 :: render_dec k ++ u) = Some (n, k * uv).
+Proof. exact rate_roundtrip_window. Qed.
+
+Theorem C18_rate_roundtrip : forall n d,
+  0 <= n < 2 ^ 31 -> 0 <= d <= two63 - 1 ->
+  parse_rate_limit (render_dec n ++ 47 :: render_dec d ++ [110; 115]) = Some (n, d).
+Proof. exact rate_roundtrip_ns. Qed.
+
+(* ---------------------------------------------------------------- durations (time.ParseDuration model) *)
+
+(* a window without a fraction: an accepted text is an optional sign followed by 0, or by components
+   <digits><unit> with units from the table, and the value is the signed sum of digits * unit (the
+   running sum is a uint64: it is the exact sum whenever that is below 2^64) *)
+Theorem C18_duration_nofrac_exact : forall s d,
+  parse_duration s = Some d -> mem 46 s = false ->
+  let neg := fst (sign_split s) in
+  let s1 := snd (sign_split s) in
+  (s1 = [48] /\ d = 0) \/
+  exists cs m,
+    cs <> [] /\ Forall comp_ok cs /\ Forall (fun c => comp_val c <= two63) cs /\
+    s1 = comps_text cs /\
+    0 <= m <= two63 /\ m mod two64 = comps_val cs mod two64 /\
+    (comps_val cs < two64 -> m = comps_val cs) /\
+    d = (if neg then - m else m) /\ (neg = false -> m <= two63 - 1).
+Proof. exact parse_duration_nofrac_exact. Qed.
+
+(* every sequence of whole-number components with a total of at most 2^63-1 ns parses to its sum *)
+Theorem C18_duration_roundtrip : forall cs,
+  cs <> [] -> Forall comp_ok cs -> comps_val cs <= two63 - 1 ->
+  parse_duration (comps_text cs) = Some (comps_val cs).
+Proof. exact parse_duration_comps. Qed.
+
+(* every accepted duration, fractions included, is an int64 *)
+Theorem C18_duration_range : forall s d, parse_duration s = Some d -> - two63 <= d <= two63 - 1.
+Proof. exact parse_duration_range. Qed.
+
+(* totality of the model: the loop fuel handed out by parse_duration is always enough (the result does
+   not depend on the fuel once it covers the text), so no input is rejected for lack of fuel *)
+Theorem C18_duration_total : forall fuel1 fuel2 s d,
+  (List.length s <= fuel1)%nat -> (List.length s <= fuel2)%nat -> dur_loop fuel1 s d = dur_loop fuel2 s d.
+Proof. exact dur_loop_fuel. Qed.
+
 (* ---------------------------------------------------------------- payload *)
 
 (* parsePacketPayload accepts exactly the sentences of the grammar of Go interpreted-string bodies
@@ -219,6 +273,14 @@ Print Assumptions C18_exclude_file_exact.
 Print Assumptions C18_exclude_file_v0_refuted.
 Print Assumptions C18_rate_exact.
 Print Assumptions C18_rate_v0_refuted.
+Print Assumptions C18_rate_roundtrip_count.
+Print Assumptions C18_rate_roundtrip_unit.
+Print Assumptions C18_rate_roundtrip_window.
+Print Assumptions C18_rate_roundtrip.
+Print Assumptions C18_duration_nofrac_exact.
+Print Assumptions C18_duration_roundtrip.
+Print Assumptions C18_duration_range.
+Print Assumptions C18_duration_total.
 Print Assumptions C18_payload_exact.
 Print Assumptions C18_payload_functional.
 Print Assumptions C18_payload_hex_roundtrip.
